@@ -367,13 +367,13 @@ theorem unquoteBoundary_plain (b : Bytes) (h : b.head? ≠ some 34) : unquoteBou
 
 /-- what `parse_multipart_form_data` does with an encoded form: the split is exact, so the result is the fold over
     the parts, unless the count is over the limit -/
-theorem parseMultipart_encoded_eq (cfg : Config) (b : Bytes) (parts : List Spec.Part)
+theorem parseMultipart_encoded_eq (cfg : Config) (b : Bytes) (parts : List Spec.Part) (f : Form)
     (hen : cfg.enabled = true) (hb : b.head? ≠ some 34) (h10 : 10 ∉ b)
     (hfresh : ∀ p ∈ parts, Spec.occurs (dashes ++ b) (Spec.contentOf Spec.disposition2231 p) = false) :
-    parseMultipart cfg b (Spec.encodeMultipart2231 b parts) {} =
+    parseMultipart cfg b (Spec.encodeMultipart2231 b parts) f =
       if parts.length > cfg.maxParts then .error .httpInput
       else (parts.map (Spec.contentOf Spec.disposition2231)).foldlM
-        (fun acc p => if p.isEmpty then Except.ok acc else parsePart cfg p acc) {} := by
+        (fun acc p => if p.isEmpty then Except.ok acc else parsePart cfg p acc) f := by
   unfold parseMultipart
   have hlen : ([] :: parts.map (Spec.contentOf Spec.disposition2231)).length - 1 = parts.length := by
     simp only [List.length_cons, List.length_map, Nat.add_sub_cancel]
@@ -391,7 +391,7 @@ theorem parseMultipart_encoded (cfg : Config) (b : Bytes) (parts : List Spec.Par
     (hfresh : ∀ p ∈ parts, Spec.occurs (dashes ++ b) (Spec.contentOf Spec.disposition2231 p) = false)
     (hok : PartsOK parts) (hsz : SizesOK cfg parts) :
     parseMultipart cfg b (Spec.encodeMultipart2231 b parts) {} = .ok (Spec.expected parts) := by
-  rw [parseMultipart_encoded_eq cfg b parts hen hb h10 hfresh, if_neg (Nat.not_lt.mpr hcount)]
+  rw [parseMultipart_encoded_eq cfg b parts {} hen hb h10 hfresh, if_neg (Nat.not_lt.mpr hcount)]
   exact foldlM_contents cfg parts {} hok hsz
 
 /-! ### hypotheses of the lossless clause -/
@@ -469,7 +469,7 @@ theorem parseMultipart_sendable_reject (cfg : Config) (b : Bytes) (parts : List 
     (hs : Sendable b parts)
     (hover : parts.length > cfg.maxParts ∨ ∃ p ∈ parts, headerSize p > cfg.maxPartHeaderSize) :
     parseMultipart cfg b (Spec.encodeMultipart2231 b parts) {} = .error .httpInput := by
-  rw [parseMultipart_encoded_eq cfg b parts hen hs.boundary_plain hs.boundary_lf hs.fresh]
+  rw [parseMultipart_encoded_eq cfg b parts {} hen hs.boundary_plain hs.boundary_lf hs.fresh]
   by_cases hc : parts.length > cfg.maxParts
   · rw [if_pos hc]
   · rw [if_neg hc]
